@@ -2232,11 +2232,23 @@ pub fn exec_bulk_inputs(seed: u64, n: u64) -> Vec<Input> {
             d.data.push(DataD { mode: DataMode::Passive, bytes: (0..r.gen_range(3..7)).map(|_| r.gen_range(1..250)).collect() });
         }
         d.datacount = true;
+        // every constant function may be named by ref.func: declare them all
+        d.elems.push(ElemD { mode: ElemMode::Declared, ety: T::FuncRef, funcs_form: true, items: (0..nconst).map(|c| Expr::Func(base + c)).collect() });
+        for t in 0..ntab as u32 {
+            d.funcs.push(FuncD { ty: 1, imported: false });
+            d.bodies.push(BodyD { locals: vec![], instrs: vec![I::LocalGet(0), I::TableGet(t), I::RefIsNull, I::End] });
+            export(&mut d, format!("isnull_t{}", t));
+        }
         // the operations
         let (nel, nda) = (d.elems.len() as u32, d.data.len() as u32);
         for j in 0..r.gen_range(5..10) {
             let c = |r: &mut rand::rngs::StdRng, hi: i32| I::I32Const(r.gen_range(0..hi));
-            let ins: Vec<I<'static>> = match r.gen_range(0..9) {
+            let rf = |r: &mut rand::rngs::StdRng| if r.gen_bool(0.25) { I::RefNull(wasm_encoder::HeapType::Abstract { shared: false, ty: wasm_encoder::AbstractHeapType::Func }) } else { I::RefFunc(base + r.gen_range(0..nconst)) };
+            let ins: Vec<I<'static>> = match r.gen_range(0..13) {
+                9 => vec![c(&mut r, 8), rf(&mut r), I::TableSet(r.gen_range(0..ntab) as u32)],
+                10 => vec![c(&mut r, 7), rf(&mut r), c(&mut r, 4), I::TableFill(r.gen_range(0..ntab) as u32)],
+                11 => vec![rf(&mut r), c(&mut r, 3), I::TableGrow(r.gen_range(0..ntab) as u32), I::Drop],
+                12 => vec![c(&mut r, 9), I::TableGet(r.gen_range(0..ntab) as u32), I::RefIsNull, I::Drop],
                 0 | 1 => vec![c(&mut r, 7), c(&mut r, 7), c(&mut r, 4), I::TableCopy { src_table: r.gen_range(0..ntab) as u32, dst_table: r.gen_range(0..ntab) as u32 }],
                 2 => vec![c(&mut r, 7), c(&mut r, 4), c(&mut r, 4), I::TableInit { elem_index: r.gen_range(0..nel), table: r.gen_range(0..ntab) as u32 }],
                 3 => vec![I::ElemDrop(r.gen_range(0..nel))],
@@ -2315,7 +2327,7 @@ pub fn exec_case(inp: &Input, gc_runs: u32) -> Option<Value> {
         for (name, _) in ops {
             calls.push(json!({"name": name, "args": [], "round": 0}));
             for (probe, np) in callable.iter().filter(|c| !c.0.starts_with("op")) {
-                let span = if probe.starts_with("call_t") { 8 } else if probe.starts_with("load_m") { 18 } else { 1 };
+                let span = if probe.starts_with("call_t") || probe.starts_with("isnull_t") { 10 } else if probe.starts_with("load_m") { 18 } else { 1 };
                 for a in 0..span {
                     calls.push(json!({"name": probe, "args": if *np == 1 { vec![a] } else { vec![] }, "round": 0}));
                 }
